@@ -341,7 +341,7 @@ void World::inject_can(int bus, const CanRec &c) {
     for (size_t i = 0; i < fds.size(); i++) {
         FdEnt &e = fds[i];
         if (e.kind != FdEnt::CAN || e.bus != bus || !e.bound) continue;
-        if (c.fd && !e.canfd_enabled) continue;  // classic sockets do not see FD frames
+        if (c.fd && !e.canfd_enabled) { count("ev.can_fd_frame_not_accepted"); continue; }  // classic sockets do not see FD frames
         if (e.canq.size() >= canq_cap) { count("fault.can_qdrop"); continue; }
         e.canq.push_back(c);
         log("can-rx", kFdBase + i, c.can_id, c.data, c.len);
